@@ -1,5 +1,5 @@
 (* C17 case runner.
-   input  = L [A srv; A scen; ...]       srv: 0 plain TCP, 1 TLS, 2 UDP
+   input  = L [A srv; A scen; ...]       srv: 0 plain TCP, 1 TLS (standard compatible), 2 UDP, 3 TLS (not standard compatible)
      scen 0 (fault in a hook)      L [A srv; A 0; A pos; exc1; opt exc2; ...]     (exc2 = second fault, raised by on_disconnection)
      scen 1 (set-up fault)         L [A srv; A 1; A stage; exc; ...]              stage 0 = accepted-socket factory, 1 = TLS handshake
      scen 2 (exit-callback fault)  L [A srv; A 2; exc; ...]                       the transport close inside aclosing() raises (TLS)
@@ -16,6 +16,9 @@ Definition dec_exc (x : sx) : option exc :=
   | L [A 1; L ks] => match map_opt dec_leaf ks with Some g => Some (Group g) | None => None end
   | _ => None
   end.
+
+Definition flavour_of (srv : Z) : flavour :=
+  match srv with 1 => FTlsCompat | 3 => FTls | _ => FPlain end.
 
 Definition enc_list (l : list Z) : sx := L (map A l).
 
@@ -34,7 +37,7 @@ Definition run (x : sx) : sx :=
         enc_out (u_raises o) (u_fresh o) (u_hooks o) (u_logs o)
       else
         do p <- pos_of_code p;
-        let o := tcp_client_task (Z.eqb srv 1) p e1 e2 in
+        let o := tcp_client_task (flavour_of srv) p e1 e2 in
         enc_out (o_raises o) (o_closed o) (o_hooks o) (o_logs o)
   | L (A srv :: A 1 :: A st :: e :: _) =>
       do e <- dec_exc e;
@@ -42,7 +45,7 @@ Definition run (x : sx) : sx :=
       enc_out (o_raises o) (o_closed o) (o_hooks o) (o_logs o)
   | L (A srv :: A 2 :: e :: _) =>
       do e <- dec_exc e;
-      let o := tcp_exit_callback_fault (Z.eqb srv 1) SAclosing e in
+      let o := tcp_exit_callback_fault (flavour_of srv) SAclosing e in
       enc_out (o_raises o) (o_closed o) (o_hooks o) (o_logs o)
   | _ => bad_input
   end.
